@@ -50,12 +50,17 @@ _REL_NAMES = ["data.txt", "out.txt", "f2.txt", "sub", "sub/x.txt"]
 _CWD_DIRS = ["", "d1", "d1/d2", "empty"]
 _PRE_DIRS = ["d1", "d1/d2", "empty"]
 _FRESH = ["n1.txt", "d1/n2.txt", "newdir", "newdir/sub", "newdir/sub/deep", "empty/n3.txt", "d1/d2/n4", "n5"]
-_TARGETS = list(_PRE_FILES) + _PRE_DIRS + _FRESH
+# names that share a prefix with another name, inside pre-existing directories (string-prefix bookkeeping hazards)
+_FAMILY = ["n5", "n5x.txt", "n5.log", "n5_dir", "n5_dir/y.txt", "d1/n2.txt.bak", "d1/n2.txt"]
+# pre-existing symbolic links: to a file and to a directory
+_PRE_LINKS = {"lnk_f": "f1.txt", "d1/lnk_d": "d2"}
+_TARGETS = list(_PRE_FILES) + _PRE_DIRS + _FRESH + list(_PRE_LINKS) + ["n5x.txt", "n5.log"]
 _OPS1 = ["open_r", "open_w", "open_a", "open_x", "open_rp", "open_wp", "io_open_w", "path_open_w", "path_open_a",
          "touch", "write_text", "write_bytes", "path_mkdir", "path_mkdir_p", "path_unlink", "path_rmdir",
          "os_mkdir", "makedirs", "makedirs_ok", "os_remove", "os_unlink", "os_rmdir", "os_open_creat", "os_open_trunc",
          "os_open_append", "rmtree", "mkstemp", "mkdtemp", "open_w_kw", "chdir"]
-_OPS2 = ["path_rename", "path_replace", "os_rename", "os_replace", "copy", "copy2", "copyfile", "copytree", "move"]
+_OPS2 = ["path_rename", "path_replace", "os_rename", "os_replace", "copy", "copy2", "copyfile", "copytree", "move",
+         "copy2_nofollow", "copyfile_nofollow"]
 _count = [0]
 _orig = {}
 
@@ -84,8 +89,19 @@ def gen_case(run_seed: int, tier: str) -> dict:
     n = r.choice([1, 2, 2, 3, 3, 4, 5, 6, 8, 12])
     ops = []
     hopping = r.random() < 0.3  # same relative names used from several working directories
+    family = (not hopping) and r.random() < 0.2  # prefix-sharing names created, then one of them removed or moved
     for _ in range(n):
-        if hopping:
+        if family:
+            if r.random() < 0.7:
+                ops.append({"op": r.choice(["open_w", "touch", "os_mkdir", "makedirs_ok", "write_text", "path_mkdir_p"]),
+                            "a": r.choice(_FAMILY), "rel": False})
+            elif r.random() < 0.5:
+                ops.append({"op": r.choice(["os_remove", "os_rmdir", "path_unlink", "rmtree", "os_unlink"]),
+                            "a": r.choice(_FAMILY), "rel": False})
+            else:
+                ops.append({"op": r.choice(["os_rename", "move", "os_replace"]), "a": r.choice(_FAMILY),
+                            "b": r.choice(_FAMILY + _FRESH), "rel": False})
+        elif hopping:
             if r.random() < 0.35:
                 ops.append({"op": "chdir", "a": r.choice(_CWD_DIRS), "rel": False})
             else:
@@ -138,6 +154,8 @@ def _build_tree(root: str) -> None:
     for f, data in _PRE_FILES.items():
         with open(os.path.join(root, f), "wb") as fh:
             fh.write(data)
+    for link, target in _PRE_LINKS.items():
+        os.symlink(target, os.path.join(root, link))
 
 
 def _do(op: dict, root: str) -> list[str]:
@@ -230,6 +248,10 @@ def _do(op: dict, root: str) -> list[str]:
         shutil.copy2(a, b)
     elif name == "copyfile":
         shutil.copyfile(a, b)
+    elif name == "copy2_nofollow":
+        shutil.copy2(a, b, follow_symlinks=False)
+    elif name == "copyfile_nofollow":
+        shutil.copyfile(a, b, follow_symlinks=False)
     elif name == "copytree":
         shutil.copytree(a, b)
     elif name == "move":
